@@ -247,9 +247,11 @@ class Gen:
             self.loop_depth -= 1
             body.append(S("var", name=c, expr=("bin", "+", ("var", c), ("num", 1.0, "")), default=False, glob=False))
             return [init, S("while", cond=("bin", "<", ("var", c), ("num", float(lim), "")), body=body)]
-        if k < 79 and ctx == "root" and depth < 2 and len(self.funcs) < 4 and self.control_depth == 0:
+        # (callables are declared at the root or directly inside a style rule — never inside control directives; one
+        # declared in a rule is local to it, and closes over the rule's frame)
+        if k < 79 and ctx in ("root", "rule") and depth < 2 and len(self.funcs) < 4 and self.control_depth == 0:
             return [self.gen_func(scope)]
-        if k < 85 and ctx == "root" and depth < 2 and len(self.mixins) < 4 and self.control_depth == 0:
+        if k < 85 and ctx in ("root", "rule") and depth < 2 and len(self.mixins) < 4 and self.control_depth == 0:
             return [self.gen_mixin(scope)]
         if k < 92 and self.mixins and ctx in ("rule", "mixin-in-rule", "root") and self.call_depth < 2:
             return [self.gen_include(scope, ctx)]
@@ -267,7 +269,11 @@ class Gen:
 
     def gen_rule(self, scope):
         self.in_rule = True
+        nf, nm = len(self.funcs), len(self.mixins)
         body = self.body(scope, "rule", self.rng.range(2, 5), 1)
+        # callables declared inside the rule go out of scope with it
+        del self.funcs[nf:]
+        del self.mixins[nm:]
         self.in_rule = False
         return S("rule", selector=self.rng.choice(SELS), body=body)
 
